@@ -6,5 +6,4 @@ CONSTANTS
 VIEW View
 CHECK_DEADLOCK FALSE
 INVARIANTS
-  TimerCoversEarliest
-  ExpiredSoon
+  WitnessScripts
